@@ -1793,6 +1793,63 @@ def run_ks13(ctx, P):
                  "derive_secret_value", out, ref, None, lc)
 
 
+def run_exp12(ctx, P):
+    """RFC 5705 exporters of live SSLv3-TLS 1.2 connections, first a full
+    handshake and then a resumed one: both ends against the reference PRF
+    fed with the master secret and the hello randoms read off the wire"""
+    from vt import pair as _pair, wire as _wire, drive as _drive, suites
+    from vt.pair import Flavor, ver_settings
+    from tlslite.sessioncache import SessionCache
+    from vt.flavours import TK, pump
+    ver = tuple(P["ver"])
+    mech = P["mech"]
+    label = "C09/exp12/%s/%s/%d" % (_pair.VNAME[ver], mech, P.get("rep", 0))
+    boot.install_vclock(1_800_000_000.0)
+    boot.drbg.reseed(label)
+    cache = SessionCache() if mech == "id" else None
+    skw = {} if mech == "id" else {"ticketKeys": TK}
+    ckw = {"cipherNames": [P["cipher"]]}
+    sess = None
+    for phase in ("full", "resumed"):
+        fl = Flavor("cert", skey="rsa", cset=ver_settings(ver, **ckw),
+                    sset=ver_settings(ver, **skw), session_cache=cache,
+                    session=sess)
+        p = _pair.Pair()
+        tc, ts = p.handshake(fl)
+        lc = "%s/%s/%s" % (_pair.VNAME[ver], mech, phase)
+        if tc.status != "done" or ts.status != "done":
+            ctx.inconc("exp12: honest %s handshake failed: %r %r" % (
+                lc, tc.exc, ts.exc))
+            return
+        if phase == "resumed" and not (p.c.resumed and p.s.resumed):
+            ctx.count("exp12_not_resumed")
+            return
+        ch = _wire.plain_handshake(p.link.records, "c2s")[0][1]
+        sh = [b for t, b in _wire.plain_handshake(p.link.records, "s2c")
+              if t == 2][0]
+        cr, sr = bytes(ch[2:34]), bytes(sh[2:34])
+        su = suites.TABLE[p.c.session.cipherSuite]
+        master = bytes(p.c.session.masterSecret)
+        for lab, n in ((b"EXPORTER-vt-live", 32), (b"EXPORTER: two", 77)):
+            want = kdf.exporter(ver, su.prf, master, lab, cr, sr, n)
+            for who, conn in (("client", p.c), ("server", p.s)):
+                ok, got = call(ctx, "keyingMaterialExporter", lc,
+                               conn.keyingMaterialExporter, B(lab), n)
+                if ok:
+                    same(ctx, "exp12", "keyingMaterialExporter", lc,
+                         "exporter_live", got, want,
+                         {"who": who, "label": lab}, who)
+        if phase == "full":
+            try:
+                pump(p, p.c, p.csock)
+            except Exception:   # noqa
+                pass
+            _drive.run([_drive.Task("cc", _drive.aclose(p.c), p.csock),
+                        _drive.Task("sc", _drive.aclose(p.s), p.ssock)],
+                       p.link)
+            sess = p.c.session
+
+
 # ================================================================= cases ===
 
 RUNNERS = {
@@ -1802,7 +1859,7 @@ RUNNERS = {
     "aead": run_aead, "aead_neg": run_aead_neg, "hmac": run_hmac,
     "prf": run_prf, "calc_key": run_calc_key, "exporter": run_exporter,
     "hkdf": run_hkdf, "ssl3": run_ssl3, "record": run_record,
-    "record13": run_record13, "ks13": run_ks13,
+    "record13": run_record13, "ks13": run_ks13, "exp12": run_exp12,
 }
 
 
@@ -1823,6 +1880,12 @@ def make_cases(ctx):
                  "tls13-alpn-tickets", "tls13-x448-ffdhe"):
         for rep in range(1 if q else 3):
             add("ks13", "%s#%d" % (scn_, rep), sc=scn_, rep=rep)
+    for ver_ in ((3, 1), (3, 2), (3, 3)):
+        for mech_ in ("id", "ticket"):
+            for cipher_ in (("aes128", "aes256gcm") if ver_ == (3, 3)
+                            else ("aes128",)):
+                add("exp12", "%d-%s-%s" % (ver_[1], mech_, cipher_),
+                    ver=ver_, mech=mech_, cipher=cipher_)
     for rep in range(reps):
         r = "" if rep == 0 else "#%d" % rep
         # --- AES block / CBC / CTR
@@ -2029,7 +2092,7 @@ def run(ctx):
 REQUIRED = ["aes_block", "aes_cbc", "aes_ctr", "des3", "rc4", "chacha20",
             "poly1305", "gcm", "ccm", "ccm8", "chachapoly", "hmac", "prf",
             "calc_key", "exporter", "hkdf", "ssl3", "record", "record13",
-            "ks13"]
+            "ks13", "exp12"]
 
 
 def finalize(m, tier):
